@@ -351,22 +351,30 @@ def rf_observers():
 
 
 def confirm_liveness(fam, binary, results):
-    """C01_Progress / C18_NoStall witnesses must reproduce twice more."""
+    """C01_Progress / C18_NoStall witnesses (finite stand-ins for liveness, judged with a deadline) must
+    reproduce twice more.  At most three witnesses per kind are re-executed; the rest are dropped as
+    duplicates of the confirmed ones (or, if none confirms, as unconfirmed)."""
     keep = []
+    tried = {}
     for kind, where, detail, replay in fam.verd.violations:
-        if kind in ("C01_Progress", "C18_NoStall"):
-            ok = True
-            for attempt in range(2):
-                sc = dict(replay["scenario"], id=replay["scenario"]["id"] + "-again%d" % attempt)
-                res = rf.run_scenarios(binary, [sc], conc=1)
-                rep, _ = rf.validate(res)
-                if not any(v["o"] == kind for v in rep[sc["id"]]["v"]):
-                    ok = False
-                    break
-            if not ok:
-                fam.verd.notes.append("not reproduced: %s %s" % (kind, replay["scenario"]["id"]))
-                continue
-        keep.append((kind, where, detail, replay))
+        if kind not in ("C01_Progress", "C18_NoStall"):
+            keep.append((kind, where, detail, replay))
+            continue
+        if tried.get(kind, 0) >= 3:
+            continue
+        tried[kind] = tried.get(kind, 0) + 1
+        ok = True
+        for attempt in range(2):
+            sc = dict(replay["scenario"], id=replay["scenario"]["id"] + "-again%d" % attempt)
+            res = rf.run_scenarios(binary, [sc], conc=1)
+            rep, _ = rf.validate(res)
+            if not any(v["o"] == kind for v in rep[sc["id"]]["v"]):
+                ok = False
+                break
+        if ok:
+            keep.append((kind, where, detail, replay))
+        else:
+            fam.verd.notes.append("not reproduced: %s %s" % (kind, replay["scenario"]["id"]))
     fam.verd.violations = keep
 
 
